@@ -1,7 +1,7 @@
 (* Checkers evaluated by the correspondence run: each returns the indices of
    the cases on which the model and the implementation's observed output
    differ (or on which the specification-side predicate fails). *)
-From V Require Import Common.Base C07.Vlq C07.SpecMap C07.Mappings C07.Shift.
+From V Require Import Common.Base Common.Utf8 C07.Vlq C07.SpecMap C07.Mappings C07.Shift C07.LineCol C07.Builder.
 
 Fixpoint mism_from {A} (f : A -> bool) (l : list A) (i : nat) : list nat :=
   match l with
@@ -109,3 +109,46 @@ Definition map_ok (c : bytes * Z * Z * list (list Z)) : bool :=
               && list_eqb abs_eqb l (map abs_of_list dec)
   end.
 Definition check_map := mismatches map_ok.
+
+(* ---- line/column tables ---- *)
+Definition lot_of (l : list Z * list Z) : lot :=
+  match l with
+  | ([st; fi; hascols], cols) => mkLot st fi (if hascols =? 0 then None else Some cols)
+  | _ => mkLot (-1) (-1) None
+  end.
+Definition lot_eqb (a b : lot) : bool :=
+  (l_start a =? l_start b) && (l_first a =? l_first b) && option_eqb zlist_eqb (l_cols a) (l_cols b).
+Definition pair_eqb (a b : Z * Z) : bool := (fst a =? fst b) && (snd a =? snd b).
+
+(* every rune boundary (and the end): the table lookup equals the direct scan *)
+Definition lookup_all_ok (text : bytes) (ts : list lot) : bool :=
+  forallb (fun off => match lookup ts off with
+                      | Some lc => pair_eqb lc (linecol_utf16 text off)
+                      | None => false end)
+          (map (fun r => fst (fst r)) (runes text) ++ [Z.of_nat (length text)]).
+
+(* (text, Go tables as ([start;first;hascols], cols), start offset (lines, cols), Go Advance result) *)
+Definition linecol_ok (c : bytes * list (list Z * list Z) * (Z * Z) * (Z * Z)) : bool :=
+  let '(text, gts, st, adv) := c in
+  let ts := GenerateLineOffsetTables text in
+  list_eqb lot_eqb ts (map lot_of gts) && lookup_all_ok text ts && pair_eqb (Advance st text) adv.
+Definition check_linecol := mismatches linecol_ok.
+
+(* ---- ChunkBuilder ---- *)
+(* (original text, events (loc, name id, delta), final delta,
+    Go: data, first name offset or -1, names ids, end state 6 fields, end has_name, final generated column, should ignore) *)
+Definition builder_ok (c : bytes * list (Z * Z * bytes) * bytes * bytes * Z * list Z * list Z * bool * Z * bool) : bool :=
+  let '(text, evs, fin, gdata, gfno, gnames, gend, gendh, gcolumn, gign) := c in
+  let ts := GenerateLineOffsetTables text in
+  match run_builder ts (bst0 true) evs with
+  | None => false
+  | Some b =>
+    let '(data, fno, names, endst, fcol, ign) := GenerateChunk b fin in
+    zlist_eqb data gdata
+    && (match fno with Some o => o =? gfno | None => gfno =? -1 end)
+    && zlist_eqb names gnames
+    && zlist_eqb [gline endst; gcol endst; sidx endst; oline endst; ocol endst; oname endst] gend
+    && Bool.eqb (has_name endst) gendh
+    && (fcol =? gcolumn) && Bool.eqb ign gign
+  end.
+Definition check_builder := mismatches builder_ok.
